@@ -38,8 +38,49 @@ def specVal (name : Bytes) (cfg : List (Bytes × Bytes)) (key : Bytes) : String 
     | some kv => kv.2.toHex
     | none => ""
 
+/-- Specification of configuration built through the API: each result is a finite map; `S k=v`
+sets (deletes when v is empty) on the current one, `C` copies it, `B` returns to the previous. -/
+abbrev CfgMap := List (Bytes × Bytes)
+
+def cfgSet (m : CfgMap) (k v : Bytes) : CfgMap :=
+  let m' := m.filter (·.1 != k)
+  if v.isEmpty then m' else m' ++ [(k, v)]
+
+structure CfgSt where
+  all : List CfgMap        -- every result ever created, in creation order
+  cur : Nat                -- index of the current one
+  stack : List Nat
+
+def cfgStep (s : CfgSt) (op : Bytes) : CfgSt :=
+  if op == [67] then  -- "C"
+    { all := s.all ++ [s.all.getD s.cur []], cur := s.all.length, stack := s.cur :: s.stack }
+  else if op == [66] then  -- "B"
+    match s.stack with
+    | p :: rest => { s with cur := p, stack := rest }
+    | [] => s
+  else
+    let body := op.drop 1
+    let k := body.takeWhile (· != 61)
+    let v := (body.dropWhile (· != 61)).drop 1
+    { s with all := s.all.set s.cur (cfgSet (s.all.getD s.cur []) k v) }
+
+def handleCfg (l : Line) : IO Unit := do
+  let ops := (l.hexList? "ops").getD []
+  let st := ops.foldl cfgStep { all := [[]], cur := 0, stack := [] }
+  let keys : List Bytes := [[97], [98], [99], [107]]
+  let outs := st.all.map fun m =>
+    ":".intercalate (keys.map fun k => match m.find? (·.1 == k) with
+      | some kv => kv.2.toHex
+      | none => "")
+  let line := s!"maps={",".intercalate outs}"
+  IO.println s!"obs {l.id} {line}"
+  IO.println s!"spec {l.id} {line}"
+
 def handle (l : Line) : IO Unit := do
   if l.kind != "case" then return
+  if l.getD "kind" == "cfg" then
+    handleCfg l
+    return
   let name := (l.bytes? "name").getD []
   let cfg := parseCfg (l.getD "cfg" "-")
   let keys := (l.hexList? "keys").getD []
